@@ -20,6 +20,8 @@ MUTABLE = (list, dict, set, bytearray, collections.deque)
 
 
 def is_model(o: Any) -> bool:
+    if isinstance(o, BaseException):
+        return False          # raising an exception object decorates it (traceback, trail, notes): not a container of the datum
     return hasattr(o, "__dict__") and not isinstance(o, (type, types.FunctionType, types.ModuleType, types.MethodType)) and type(o).__module__ != "builtins"
 
 
@@ -312,6 +314,9 @@ def run(ctx: Ctx) -> None:
     sweep = run_dump_sweep(ctx)
     report_dump(ctx, sweep, "C20")
     ctx.evaluations += ctx.replayed
+    # code -> spec: the calls of the repository's own test-suite with their variations, judged by spec/Trace_Harvest.tla
+    from .. import harvest
+    harvest.check(ctx, "C20")
 
 
 def replay(path: str) -> int:
